@@ -148,6 +148,8 @@ type world struct {
 	recProt   schema.TypedPrototype
 	stream    datamodel.Node
 	reference bool // the sequential reference world
+	finalsMu  sync.Mutex
+	finals    []func() string // re-verifications to run after every goroutine has finished
 }
 
 var ssb = builder.NewSelectorSpecBuilder(basicnode.Prototype.Any)
@@ -429,18 +431,53 @@ func (w *world) kindOps(kind string, k int) []string {
 				add(dumpStr(n))
 			}
 		case "load":
-			for i, l := range w.links {
-				n, e := w.lsys.Load(linking.LinkContext{Ctx: context.Background()}, l, basicnode.Prototype.Any)
-				add(errStr(e))
-				if e == nil {
-					add(dumpStr(n))
+			// Load, ComputeLink, and the raw paths: the blocks LoadRaw / LoadPlusRaw hand back are KEPT and
+			// re-verified against their links while this and the other goroutines go on loading other blocks
+			type held struct {
+				l   datamodel.Link
+				raw []byte
+			}
+			var keep []held
+			verify := func() string {
+				ok := true
+				for _, hb := range keep {
+					c, e := hb.l.(cidlink.Link).Cid.Prefix().Sum(hb.raw)
+					if e != nil || !c.Equals(hb.l.(cidlink.Link).Cid) {
+						ok = false
+					}
 				}
-				l2, e := w.lsys.ComputeLink(l.Prototype(), w.nodes[(i+k)%len(w.nodes)])
-				add(errStr(e))
-				if e == nil {
-					add(l2.String())
+				return fmt.Sprintf("held%d:%v", len(keep), ok)
+			}
+			for round := 0; round < 3; round++ {
+				for i := range w.links {
+					l := w.links[(i+k+round)%len(w.links)]
+					n, e := w.lsys.Load(linking.LinkContext{Ctx: context.Background()}, l, basicnode.Prototype.Any)
+					add(errStr(e))
+					if e == nil {
+						add(dumpStr(n))
+					}
+					raw, e := w.lsys.LoadRaw(linking.LinkContext{Ctx: context.Background()}, l)
+					add(errStr(e) + lib.Hex(string(raw)))
+					keep = append(keep, held{l, raw})
+					runtime.Gosched()
+					add(verify())
+					n2, raw2, e := w.lsys.LoadPlusRaw(linking.LinkContext{Ctx: context.Background()}, w.links[(i+k+round+1)%len(w.links)], basicnode.Prototype.Any)
+					add(errStr(e) + lib.Hex(string(raw2)))
+					if e == nil {
+						add(dumpStr(n2))
+						keep = append(keep, held{w.links[(i+k+round+1)%len(w.links)], raw2})
+					}
+					add(verify())
+					l2, e := w.lsys.ComputeLink(l.Prototype(), w.nodes[(i+k)%len(w.nodes)])
+					add(errStr(e))
+					if e == nil {
+						add(l2.String())
+					}
 				}
 			}
+			w.finalsMu.Lock()
+			w.finals = append(w.finals, verify)
+			w.finalsMu.Unlock()
 		case "proto":
 			nb := w.recProt.NewBuilder()
 			la, _ := nb.BeginMap(3)
@@ -560,6 +597,11 @@ func child(kind string, procs, n int, spec string, seed uint64) {
 	close(start)
 	wg.Wait()
 	same := true
+	for _, f := range w.finals { // what the goroutines kept must still be what they were given
+		if !strings.HasSuffix(f(), ":true") {
+			same = false
+		}
+	}
 	for k := 0; k < n; k++ {
 		if strings.Join(got[k], "\x00") != strings.Join(want[k], "\x00") {
 			same = false
